@@ -71,11 +71,16 @@ class FakeTime:
     def __init__(self):
         self.script = []
         self.reads = 0
+        self.unscripted = 0
+        self.idle_now = 0.0
 
     def time(self):
         self.reads += 1
         if not self.script:
-            raise common.Broken("unscripted clock read in quantum.py")
+            # a clock read the model does not know (outside the noise routine / constructor): answered with the current idle
+            # instant and counted; the oracle then judges its effect on the idle clock
+            self.unscripted += 1
+            return self.idle_now
         return self.script.pop(0)
 
 
@@ -284,6 +289,33 @@ def run(ctx):
             tnum = rng.choice([i for i in range(n) if i != num])
             ft.script = [last]
             other = Qm.simulatedQubit(Node(), eng, simNum=8, num=tnum)
+        # things that are NOT operations on the qubit happen while it idles: lock / unlock cycles (as _remove_sim_qubit, merges and
+        # the qubit lock of every virtualQubit operation do), status and numbering queries.  They must not touch the idle clock.
+        ft.script = []
+        ft.unscripted = 0
+        ft.idle_now = last + (now1 - last) * rng.random()
+        idle_events = []
+        for _ in range(rng.randrange(0, 4)):
+            ev = rng.choice(["lock_unlock", "isLocked", "isActive", "get_numbers", "get_details", "get_sim_number", "remote_lock_unlock"])
+            idle_events.append(ev)
+            if ev == "lock_unlock":
+                sq.lock()
+                sq.unlock()
+            elif ev == "remote_lock_unlock":
+                sq.remote_lock()
+                sq.remote_unlock()
+            elif ev == "isLocked":
+                sq.remote_isLocked()
+            elif ev == "isActive":
+                sq.remote_isActive()
+            elif ev == "get_numbers":
+                sq.remote_get_numbers()
+            elif ev == "get_details":
+                sq.remote_get_details()
+            else:
+                sq.remote_get_sim_number()
+        idle_touched = (sq.last_accessed != last) or ft.unscripted > 0
+        ctx.count("idle_non_operations", len(idle_events))
         log = []
         record_engine(eng, log)
         ft.script = [now1, now2]
@@ -342,7 +374,11 @@ def run(ctx):
             shape_bad.append(d)
         # ---- oracle: the property, stated directly ------------------------------------------------------------
         bad = None
-        if not noisy:
+        d["idle_events"] = idle_events
+        if idle_touched:
+            bad = ("the idle clock was read / restarted by something that is not an operation on the qubit (%s): last_accessed %r -> restarted, "
+                   "%d clock reads" % (", ".join(idle_events), last, ft.unscripted))
+        elif not noisy:
             # idle time never changes any state: nothing applied, and the operation equals the bare engine call
             if noise_calls or tout != tin or sq.last_accessed != last:
                 bad = "noise off but the register / idle clock changed"
